@@ -146,3 +146,33 @@ Proof.
   destruct h as [|r h]; reflexivity.
 Qed.
 Print Assumptions link_final_guard.
+
+(* ------------------------------------------------------------------ the configuration's guard
+   EvolvingAnsatzMinimumEigensolverConfiguration.__post_init__ accepts a configuration exactly when at least one of the three
+   limits the C12 theorems are about (cfg_max_generations, cfg_max_evals, cfg_criterion) is set, and raises ValueError
+   otherwise: an accepted configuration always has a limit that the loop model's theorems can bind. *)
+Definition config_has_limit {Ind R Op Init AuxEv} (cfg : config Ind R Op Init AuxEv) : bool :=
+  match cfg_max_generations _ _ _ _ _ cfg, cfg_max_evals _ _ _ _ _ cfg, cfg_criterion _ _ _ _ _ cfg with
+  | None, None, None => false
+  | _, _, _ => true
+  end.
+
+Lemma link_Config_post_init : forall (Ind R Op Init AuxEv : Type) (cfg : config Ind R Op Init AuxEv),
+  gen_Config_post_init Ind R Op Init AuxEv cfg = if config_has_limit cfg then Ok tt else Err "ValueError"%string.
+Proof.
+  intros. unfold gen_Config_post_init, config_has_limit, c_max_generations, c_max_evals, c_criterion.
+  destruct (cfg_max_generations _ _ _ _ _ cfg), (cfg_max_evals _ _ _ _ _ cfg), (cfg_criterion _ _ _ _ _ cfg); reflexivity.
+Qed.
+Print Assumptions link_Config_post_init.
+
+Lemma link_Config_post_init_accepts : forall (Ind R Op Init AuxEv : Type) (cfg : config Ind R Op Init AuxEv),
+  gen_Config_post_init Ind R Op Init AuxEv cfg = Ok tt ->
+  (exists G, cfg_max_generations _ _ _ _ _ cfg = Some G) \/ (exists B, cfg_max_evals _ _ _ _ _ cfg = Some B)
+  \/ (exists c, cfg_criterion _ _ _ _ _ cfg = Some c).
+Proof.
+  intros Ind R Op Init AuxEv cfg. rewrite link_Config_post_init. unfold config_has_limit.
+  destruct (cfg_max_generations _ _ _ _ _ cfg) as [G|]; [intros _; left; now exists G|].
+  destruct (cfg_max_evals _ _ _ _ _ cfg) as [B|]; [intros _; right; left; now exists B|].
+  destruct (cfg_criterion _ _ _ _ _ cfg) as [c|]; [intros _; right; right; now exists c|discriminate].
+Qed.
+Print Assumptions link_Config_post_init_accepts.
